@@ -28,6 +28,7 @@ func cmdLeadRun(args []string) int {
 	fails := fs.Int("fails", 50, "failed writes of the old leader (each consumes a revision)")
 	succ := fs.Int("succ", 3, "successful writes of the old leader")
 	stopAfter := fs.Int("stopafter", -1, "the old leader stops after this many requests (-1: after all)")
+	follower := fs.Bool("follower", false, "the new leader is a node that was a follower and served a read (it adopted the old leader's revision at that time) before the old leader's last writes")
 	fs.Parse(args)
 	kb.QuietLogs()
 	backend.VerifSetRetryIntervals(0, time.Millisecond)
@@ -43,8 +44,16 @@ func cmdLeadRun(args []string) int {
 		names[i] = fmt.Sprintf("/k%02d", i)
 	}
 	const shift = 1000000000
+	newNode := func(id string) *kb.Env {
+		return kb.NewEnv(kb.Options{Engine: eng, KeyNames: names, Gated: false, Record: true, Prefix: "/lead", Identity: id})
+	}
+	var standby *kb.Env
 	startNode := func(id string) (*kb.Env, uint64, bool) {
-		env := kb.NewEnv(kb.Options{Engine: eng, KeyNames: names, Gated: false, Record: true, Prefix: "/lead", Identity: id})
+		env := standby
+		standby = nil
+		if env == nil {
+			env = newNode(id)
+		}
 		started := make(chan struct{})
 		le := leader.NewLeaderElection(env.B, kb.Metrics(), func(context.Context) { close(started) }, func() {})
 		go le.Campaign()
@@ -86,6 +95,12 @@ func cmdLeadRun(args []string) int {
 			oldRev[i+1] = r.Header.Revision
 		}
 	}
+	if *follower {
+		// a second node of the cluster serves a read as follower: the revision syncer stores the leader's
+		// committed revision in its backend (revision.go: SetCurrentRevision)
+		standby = newNode("node-1")
+		standby.B.SetCurrentRevision(a.B.GetCurrentRevision())
+	}
 	for i := 0; i < *fails && !stop(); i++ {
 		// creating an existing key fails and consumes a revision without touching the engine
 		a.B.Create(ctx, &proto.CreateRequest{Key: a.Keys.Raw(1), Value: []byte("again")})
@@ -112,7 +127,7 @@ func cmdLeadRun(args []string) int {
 		fmt.Println("the restarted node did not become leader in time")
 		return 2
 	}
-	log(gate.Event{"e": "LeaderStart", "seed": rel(seedB), "engine": *engine})
+	log(gate.Event{"e": "LeaderStart", "seed": rel(seedB), "engine": *engine, "was_follower": *follower})
 	r, err := b.B.Create(ctx, &proto.CreateRequest{Key: b.Keys.Raw(nkeys), Value: []byte("new")})
 	if err == nil {
 		log(gate.Event{"e": "NewWrite", "rev": rel(r.Header.Revision), "ok": r.Succeeded, "guarded": false, "what": "create of a new key"})
